@@ -141,7 +141,7 @@ def run(ctx):
     tb = resp.tables(ctx)
     cases = gen_cases(ctx, tb)
     results = resp.run_cases(ctx, [resp.case_json(c[2], c[4], c[3], c[5], c[6]) for c in cases])
-    seen_classes, kcases, nviol = {}, [], 0
+    seen_classes, kcases, nviol, reported = {}, [], 0, set()
     for case, res in zip(cases, results):
         label, conv, cch, ct, sch, st, order = case
         nontrivial = len(conv) >= 2 or any(len(a) > 0 for a in conv[0]["cmd"][1:])
@@ -154,6 +154,10 @@ def run(ctx):
                 if small:
                     case, res, why, exp = small
                     label, conv, cch, ct, sch, st, order = case
+                sig = (tuple(cch), tuple(sch), order)
+                if sig in reported:
+                    continue
+                reported.add(sig)
                 ctx.violation(resp.replay_obj("conversation", cch, ct, sch, st, order, res, {
                     "why": why, "conversation": resp.to_jsonable(conv),
                     "expected": {"c": exp["c"], "s": exp["s"], "residue": exp["res"], "items": resp.show_items(exp["items"])}}))
@@ -172,6 +176,22 @@ def run(ctx):
     for f, conv in known_witnesses():
         if f.get("class") not in seen_classes:
             ctx.note("recorded finding %s no longer reproduces" % f.get("id"))
+    # a separate malformed stream for the correspondence only (no property of C07 speaks about it,
+    # but the model must follow the code there too): corruptions of small conversations
+    mal = []
+    for _ in range(150 if ctx.tier == "quick" else 3000):
+        cb, sb, _, _ = resp.enc_conv(resp.small_conv(ctx.rng, tb, ctx.rng.randint(1, 3), clean=ctx.rng.random() < 0.7))
+        if ctx.rng.random() < 0.5:
+            cb = resp.corrupt(ctx.rng, cb)
+        else:
+            sb = resp.corrupt(ctx.rng, sb)
+        mal.append((resp.random_chunking(ctx.rng, cb), ctx.rng.choice([0, 1, 2]), resp.random_chunking(ctx.rng, sb), ctx.rng.choice([0, 1, 2])))
+    for m, r in zip(mal, resp.run_cases(ctx, [resp.case_json(m[0], m[2], m[1], m[3]) for m in mal])):
+        ctx.count_case(("c07-malformed", tuple(m[0]), tuple(m[2]), m[1], m[3]), True, "malformed (correspondence only)")
+        if r is None or "panic" in (r["c"], r["s"]):
+            ctx.violation(resp.replay_obj("crash", m[0], m[1], m[2], m[3], "cs", r))
+        else:
+            kcases.append((m[0], m[1], m[2], m[3], r))
     # correspondence model <-> implementation on the same cases
     if resp.model_available(ctx):
         bad = resp.model_check(ctx, "c07_cases", kcases, "resp_dissect")
